@@ -132,4 +132,12 @@ PROPS = {
                      "Environment::Inherit is exercised through hook H2 in the start build only",
                      "Child::wait returning the raw wait status or the exit code are both accepted"],
     ),
+
+    "C18": dict(
+        level="exploration",
+        technique="bounded-exhaustive enumeration of every batch (sequence) up to a length bound over a 42-symbol operation alphabet, independent and linked, per ring size and accepted flag set, through the real wrapper on the real kernel, differential against direct system calls; ring teardown observed through the syscall seam",
+        steps=[_s("h-uring", "ops"), _s("h-uring", "drop")],
+        assumptions=["reference = direct libc calls in a twin directory / twin sockets; kernel link-severing rules learned through a raw ring and modelled in the reference",
+                     "batches <= 3 (thorough 4), rings <= 8; index wrap is C17's concern"],
+    ),
 }
